@@ -622,4 +622,117 @@ example : ∀ n, view (runOps exA.1 exA.2 [.append ["check"] "X"]) n (.ref exCls
     view exA.1 n (.ref exCls.attrs) :=
   class_invisible_to_instance_history 0 exCls exHeap (.range 2) .none exWF exOK _
 
+/-! ## Siblings with caller-owned (mutable) constructor arguments
+
+`VectorContainer.__init__` stores the `span` argument by reference (`self.__dict__['span'] = span`): the caller keeps
+a second handle on that list.  Two siblings that each get a span list of their own share nothing with each other —
+each shares its span with its caller, and only that; two siblings handed the SAME list share it (negative witness,
+by design of the constructor: the argument is the caller's object). -/
+
+theorem newInst_ext {ci : Nat} {cd : ClassDesc} {h : Heap} {l : Nat} {j : Imm} (wf : WF h) (ok : ClassOK h cd)
+    (hl : l < h.length) : Ext h (newInst ci cd h (.ref l) (.imm j)).1 ∧
+    Reach (newInst ci cd h (.ref l) (.imm j)).1 (newInst ci cd h (.ref l) (.imm j)).2 l := by
+  have B0 : Blk 0 h := fun l' o k c _ ho hm => ⟨Nat.zero_le _, wf l' o k c ho hm⟩
+  have C := construct_ok (b := 0) wf (Ext.refl h) ok B0 (Nat.zero_le _) (.ref l) (.imm j)
+    (NewV.ref (Nat.zero_le _) hl) (NewV.imm _ _ _)
+  have L := construct_lookup_span cd h (.ref l) (.imm j)
+  unfold newInst
+  generalize construct cd h (.ref l) (.imm j) = r at C L
+  obtain ⟨h1, ss⟩ := r
+  exact ⟨C.ext.trans (Ext.append _ _), Reach.single (getElem?_append_self h1 _) (lookup_mem _ _ _ L)⟩
+
+/-- **siblings_disjoint_own_spans.**  The caller allocates a span list for each sibling (locations `h.length` and
+    the length of the heap after the first constructor call) and keeps both handles: the siblings are disjoint; the
+    first reaches its own span list (shared with the caller), the second does not reach it. -/
+theorem siblings_disjoint_own_spans (ci : Nat) (cd : ClassDesc) (h : Heap) (sA sB : Obj) (j1 j2 : Imm) (wf : WF h)
+    (ok : ClassOK h cd) (leafA : ∀ k c, (k, Val.ref c) ∉ sA.slots) (leafB : ∀ k c, (k, Val.ref c) ∉ sB.slots) :
+    Disjoint
+      (newInst ci cd ((newInst ci cd (h ++ [sA]) (.ref h.length) (.imm j1)).1 ++ [sB])
+        (.ref (newInst ci cd (h ++ [sA]) (.ref h.length) (.imm j1)).1.length) (.imm j2)).1
+      (newInst ci cd (h ++ [sA]) (.ref h.length) (.imm j1)).2
+      (newInst ci cd ((newInst ci cd (h ++ [sA]) (.ref h.length) (.imm j1)).1 ++ [sB])
+        (.ref (newInst ci cd (h ++ [sA]) (.ref h.length) (.imm j1)).1.length) (.imm j2)).2 ∧
+    Reach
+      (newInst ci cd ((newInst ci cd (h ++ [sA]) (.ref h.length) (.imm j1)).1 ++ [sB])
+        (.ref (newInst ci cd (h ++ [sA]) (.ref h.length) (.imm j1)).1.length) (.imm j2)).1
+      (newInst ci cd (h ++ [sA]) (.ref h.length) (.imm j1)).2 h.length ∧
+    ¬ Reach
+      (newInst ci cd ((newInst ci cd (h ++ [sA]) (.ref h.length) (.imm j1)).1 ++ [sB])
+        (.ref (newInst ci cd (h ++ [sA]) (.ref h.length) (.imm j1)).1.length) (.imm j2)).1
+      (newInst ci cd ((newInst ci cd (h ++ [sA]) (.ref h.length) (.imm j1)).1 ++ [sB])
+        (.ref (newInst ci cd (h ++ [sA]) (.ref h.length) (.imm j1)).1.length) (.imm j2)).2 h.length := by
+  obtain ⟨eA, wfA, loA, hiA, RA⟩ := reach_newInst_span (ci := ci) (sub := .imm j1) wf ok leafA ⟨j1, rfl⟩
+  have wfA0 : WF (h ++ [sA]) := wf_append_leaf wf leafA
+  have okA0 : ClassOK (h ++ [sA]) cd := ok.ext wf (Ext.append _ _)
+  obtain ⟨_, spanA⟩ := newInst_ext (ci := ci) (cd := cd) (l := h.length) (j := j1) wfA0 okA0 (by simp)
+  generalize newInst ci cd (h ++ [sA]) (.ref h.length) (.imm j1) = pa at *
+  obtain ⟨h1, a⟩ := pa
+  simp only at *
+  have okA : ClassOK h1 cd := okA0.ext wfA0 eA
+  obtain ⟨eB, wfB, loB, hiB, RB⟩ := reach_newInst_span (ci := ci) (sub := .imm j2) wfA okA leafB ⟨j2, rfl⟩
+  generalize newInst ci cd (h1 ++ [sB]) (.ref h1.length) (.imm j2) = pb at *
+  obtain ⟨h2, b⟩ := pb
+  simp only at *
+  have e12 : Ext h1 h2 := (Ext.append _ _).trans eB
+  have lenA := eA.len
+  simp at lenA
+  refine ⟨?_, (reach_ext_iff wfA e12 hiA _).mpr spanA, ?_⟩
+  · intro x ra rb
+    have := reach_lt wfA hiA ((reach_ext_iff wfA e12 hiA x).mp ra)
+    have := RB x rb
+    omega
+  · intro rb
+    have := RB _ rb
+    omega
+
+/-- **siblings_share_callers_span** (negative witness).  Two siblings handed the SAME span list both reach it: the
+    constructor stores the caller's object, it does not copy it. -/
+theorem siblings_share_callers_span (ci : Nat) (cd : ClassDesc) (h : Heap) (l : Nat) (j1 j2 : Imm) (wf : WF h)
+    (ok : ClassOK h cd) (hl : l < h.length) (hleaf : ∀ o, h[l]? = some o → ∀ k c, (k, Val.ref c) ∉ o.slots) :
+    ¬ Disjoint (newInst ci cd (newInst ci cd h (.ref l) (.imm j1)).1 (.ref l) (.imm j2)).1
+      (newInst ci cd h (.ref l) (.imm j1)).2
+      (newInst ci cd (newInst ci cd h (.ref l) (.imm j1)).1 (.ref l) (.imm j2)).2 := by
+  intro dj
+  obtain ⟨eA, rA⟩ := newInst_ext (ci := ci) (cd := cd) (l := l) (j := j1) wf ok hl
+  -- the first instance and its span in the heap after the second constructor call: one step, same objects
+  have B0 : Blk 0 h := fun l' o k c _ ho hm => ⟨Nat.zero_le _, wf l' o k c ho hm⟩
+  have CA := construct_ok (b := 0) wf (Ext.refl h) ok B0 (Nat.zero_le _) (.ref l) (.imm j1)
+    (NewV.ref (Nat.zero_le _) hl) (NewV.imm _ _ _)
+  have LA := construct_lookup_span cd h (.ref l) (.imm j1)
+  have wfA : WF (newInst ci cd h (.ref l) (.imm j1)).1 := by
+    unfold newInst
+    generalize construct cd h (.ref l) (.imm j1) = r at CA
+    obtain ⟨h1, ss⟩ := r
+    have B1 : Blk 0 (h1 ++ [⟨.inst ci, ss⟩]) := by
+      apply CA.blk.append
+      intro e he k c hm
+      simp at he; subst he
+      have hs : c < h1.length := (CA.slots k _ hm c rfl).2
+      simp; omega
+    exact fun l' o k c ho hm => (B1 l' o k c (Nat.zero_le _) ho hm).2
+  have hA_lt : (newInst ci cd h (.ref l) (.imm j1)).2 < (newInst ci cd h (.ref l) (.imm j1)).1.length := by
+    unfold newInst
+    generalize construct cd h (.ref l) (.imm j1) = r
+    obtain ⟨h1, ss⟩ := r
+    simp
+  have okA : ClassOK (newInst ci cd h (.ref l) (.imm j1)).1 cd := ok.ext wf eA
+  have hl' : l < (newInst ci cd h (.ref l) (.imm j1)).1.length := by have := eA.len; omega
+  obtain ⟨eB, rB⟩ := newInst_ext (ci := ci) (cd := cd) (l := l) (j := j2) wfA okA hl'
+  exact dj l ((reach_ext_iff wfA eB hA_lt l).mpr rA) rB
+
+-- non-vacuity: two siblings with their own list spans; two siblings on one shared list
+def exSpanA : Obj := strList ["p0", "p1"]
+example : wfB exHeap = true ∧ classOKB exHeap exCls = true ∧ noRefs exSpanA.slots = true := by decide
+example :=
+  siblings_disjoint_own_spans 0 exCls exHeap exSpanA exSpanA (.none) (.none) exWF exOK
+    (noRefs_sound (by decide)) (noRefs_sound (by decide))
+example :=
+  siblings_share_callers_span 0 exCls (exHeap ++ [exSpanA]) exHeap.length .none .none
+    (wf_of_check (by decide)) (classOK_of_check (by decide)) (by decide)
+    (fun o ho => by
+      have : o = exSpanA := by
+        have h' : (exHeap ++ [exSpanA])[exHeap.length]? = some exSpanA := by decide
+        rw [h'] at ho; exact (Option.some.inj ho).symm
+      subst this; exact noRefs_sound (by decide))
+
 end Fsic.C11
